@@ -228,6 +228,9 @@ Quiescent ==
 \* is part of the claim iteration
 GossipComplete == Quiescent => (Lacks(n, x, prs, kh) = {} /\ ClaimsMissing(n, x, prs) = {})
 
+\* (to be refuted: a state at rest in which the peer waits for a block the node holds as locked / valid block only)
+NoG3AtRest == ~(Quiescent /\ LockedBlockItems(n, x) # {})
+
 \* every send is something the node holds, that the peer state did not already show, and is recorded afterwards;
 \* every announcement of the peer is recorded; a claim of the peer is answered with exactly the node's votes for the block.
 \* (action properties: act / mid are outside the VIEW, every transition is examined)
